@@ -48,6 +48,11 @@ CHECKS = {
   text="Every history over {Next, Scan, Err, Close} up to length 6 (quick) / 7 (thorough) on 8 kinds of query, and every merge of two short histories on two Solutions of one interpreter, is run on the real code under every schedule with at most 2/3 preemptions. A blocking call is decided exactly (no enabled thread), as are goroutine leaks after Close/exhaustion and goals running after Close; results are compared with a sequential iterator model.",
   note="Trusted: the syntactic rewriter and the shim's model of Go channels (DESIGN.md Appendix B); schedules are explored up to the stated preemption bound; data races are outside a cooperative scheduler's view (separate -race pass planned).",
   design="DESIGN.md §3 C12"),
+ "C14": dict(
+  technique="stateless model checking of the real atom table / variable counter under a controlled scheduler (sync and sync/atomic of engine/atom.go, engine/variable.go routed through a shim at build time): all pairs/triples of short thread programs under every interleaving within a preemption bound, each recorded call/return history checked for linearizability with porcupine; two interpreters running small queries under every schedule within a deviation bound; exhaustive mutator x observer isolation matrix; separate free-running -race pass",
+  text="The shared process-wide state (atom table, variable counter) is exercised by every combination of short thread programs forced to collide on names that are new in each execution, under all interleavings at lock/unlock/atomic operations up to 3 (quick) / 6 (thorough) preemptions; linearizability against a sequential map is decided per schedule. Isolation is decided exhaustively for 19 mutators x 23 observers in two stream configurations. Data-race freedom proper is left to the race detector on free-running runs of the same kind of bodies, because a cooperative scheduler cannot see unsynchronised accesses.",
+  note="Trusted: shim lock model, porcupine v1.3.0, Go race detector. Memory-model effects weaker than sequential consistency are not explored.",
+  design="DESIGN.md §3 C14"),
  "C16": dict(
   technique="bounded-exhaustive enumeration of call patterns on the real interpreter against relations computed by brute force: every instantiation pattern the modes admit x every combination of bound values (matching and non-matching), answers compared as multisets; infinite / variable-creating modes against the reference machine",
   text="For each of the 17 predicates the complete relation over a finite domain (multi-byte characters, lists, integers near the 64-bit limits) is enumerated by brute force and every admissible call pattern is compared with the matching subset of the relation, each tuple exactly once - which also yields the monotonicity clause of the property.",
